@@ -9,8 +9,10 @@
     respects; IDs are below 2^63 (the SQLite driver's integer domain).  A Go run-time
     panic is the outcome [true] in the second component of [step]; the state is then
     unchanged (every panic happens before the first mutation, and the mutex is
-    released by a deferred unlock).  The model is the code AFTER the fix that makes
-    StartTracing / StopTracing idempotent; [step_old] keeps the earlier behaviour. *)
+    released by a deferred unlock).  The model is the code AFTER the fixes that make
+    StartTracing / StopTracing idempotent ([step_old] keeps the earlier behaviour)
+    and that keep StartTracing from marking tag/milestone placeholders
+    ([step_old_mark] keeps the earlier behaviour). *)
 From Akita Require Import Lib.Base.
 Local Open Scope N_scope.
 
@@ -40,9 +42,10 @@ Record rt := mk_rt {
   r_id : N; r_parent : N; r_kind : N; r_what : N; r_loc : N; r_start : N;
   r_tags : list row;          (* Tags, as tag rows *)
   r_miles : list row;         (* Milestones, as milestone rows *)
-  r_rec : bool }.             (* toRecord *)
+  r_rec : bool;               (* toRecord *)
+  r_started : bool }.         (* started: false for a placeholder created by a tag / milestone *)
 
-Definition rt_new (id : N) : rt := mk_rt id 0 0 0 0 0 [] [] false.
+Definition rt_new (id : N) : rt := mk_rt id 0 0 0 0 0 [] [] false false.
 
 Record st := mk_st {
   s_tasks : option (list (N * rt));   (* tracingTasks; None = nil map (after Terminate) *)
@@ -89,9 +92,17 @@ Definition stop_body (now : N) (s : st) : st :=
                (mk_tabs (t_trace p) (t_mile p) (t_tag p) (t_seg p ++ [seg_row (s_wstart s) now]))
                (s_db s)).
 
+(** StartTracing: every STARTED entry is marked *)
 Definition mark_all (m : list (N * rt)) : list (N * rt) :=
   map (fun kv => (fst kv, let r := snd kv in
-        mk_rt (r_id r) (r_parent r) (r_kind r) (r_what r) (r_loc r) (r_start r) (r_tags r) (r_miles r) true)) m.
+        mk_rt (r_id r) (r_parent r) (r_kind r) (r_what r) (r_loc r) (r_start r) (r_tags r) (r_miles r)
+              (r_started r || r_rec r) (r_started r))) m.
+
+(** before the fix: every entry is marked, placeholders included *)
+Definition mark_all_old (m : list (N * rt)) : list (N * rt) :=
+  map (fun kv => (fst kv, let r := snd kv in
+        mk_rt (r_id r) (r_parent r) (r_kind r) (r_what r) (r_loc r) (r_start r) (r_tags r) (r_miles r)
+              true (r_started r))) m.
 
 Definition step (s : st) (o : op) : st * bool :=
   match o with
@@ -102,7 +113,7 @@ Definition step (s : st) (o : op) : st * bool :=
       | Some m =>
           let old := match tget id m with Some r => r | None => rt_new id end in
           let r := mk_rt id parent kind what loc t (r_tags old) (r_miles old)
-                         (if s_tracing s then true else r_rec old) in
+                         (if s_tracing s then true else r_rec old) true in
           (with_tasks s (tset id r m), false)
       end
   | OTag tid task what t =>
@@ -111,7 +122,7 @@ Definition step (s : st) (o : op) : st * bool :=
       | Some m =>
           let old := match tget task m with Some r => r | None => rt_new task end in
           let r := mk_rt (r_id old) (r_parent old) (r_kind old) (r_what old) (r_loc old) (r_start old)
-                         (r_tags old ++ [tag_row tid task t what]) (r_miles old) (r_rec old) in
+                         (r_tags old ++ [tag_row tid task t what]) (r_miles old) (r_rec old) (r_started old) in
           (with_tasks s (tset task r m), false)
       end
   | OMile mid task t kind what =>
@@ -122,7 +133,7 @@ Definition step (s : st) (o : op) : st * bool :=
           let miles := if existsb (fun x => mile_time x =? t) (r_miles old) then r_miles old
                        else r_miles old ++ [mile_row mid task t kind what] in
           let r := mk_rt (r_id old) (r_parent old) (r_kind old) (r_what old) (r_loc old) (r_start old)
-                         (r_tags old) miles (r_rec old) in
+                         (r_tags old) miles (r_rec old) (r_started old) in
           (with_tasks s (tset task r m), false)
       end
   | OEnd id t =>
@@ -176,3 +187,14 @@ Definition step_old (s : st) (o : op) : st * bool :=
   | _ => step s o
   end.
 Definition final_old (ops : list op) : st := fold_left (fun s o => fst (step_old s o)) ops st0.
+
+(** before the placeholder fix: StartTracing marked every entry *)
+Definition step_old_mark (s : st) (o : op) : st * bool :=
+  match o with
+  | OStartTracing now =>
+      if s_tracing s then (s, false)
+      else (mk_st (match s_tasks s with Some m => Some (mark_all_old m) | None => None end)
+                  true now (s_term s) (s_pend s) (s_db s), false)
+  | _ => step s o
+  end.
+Definition final_old_mark (ops : list op) : st := fold_left (fun s o => fst (step_old_mark s o)) ops st0.
